@@ -313,6 +313,10 @@ def _sort_by_key_late(se, env, pc, vals, cont): return sort_by_key(se, env, pc, 
 _sort_by_key_late.cps = True
 
 
+def _into(se, env, pc, v):
+    raise Inconclusive('Into::into needs an obligation-specific summary')
+
+
 def std_summaries():
     S = {}
     P = {}
@@ -331,7 +335,7 @@ def std_summaries():
     P[r'<(?:log::)?Level as PartialOrd<(?:log::)?LevelFilter>>::le'] = false_
     P[r'log::__private_api::.*'] = unit
     P[r'log::max_level'] = lambda se, env, pc: one(env, Opaque('level'))
-    P[r'(?:std|core)::fmt::Arguments::.*'] = lambda se, env, pc, *a: one(env, Opaque('fmt-args'))
+    P[r'(?:(?:std|core)::fmt::)?Arguments::.*'] = lambda se, env, pc, *a: one(env, Opaque('fmt-args'))
     P[r'(?:core|std)::fmt::rt::.*'] = lambda se, env, pc, *a: one(env, Opaque('fmt-arg'))
     P[r'(?:std|alloc)::fmt::format'] = lambda se, env, pc, *a: one(env, {'str': '<formatted>'})
     P[r'format_args_helper.*'] = lambda se, env, pc, *a: one(env, Opaque('fmt'))
@@ -394,6 +398,8 @@ def std_summaries():
     P[r'std::cmp::Ordering::is_ge'] = lambda se, env, pc, o: one(env, o != BitVecVal(0xff, 8))
     P[r'std::cmp::Ordering::is_le'] = lambda se, env, pc, o: one(env, o != BitVecVal(1, 8))
     P[r'std::cmp::Ordering::reverse'] = lambda se, env, pc, o: one(env, If(o == BitVecVal(0xff, 8), BitVecVal(1, 8), If(o == BitVecVal(1, 8), BitVecVal(0xff, 8), o)))
+    P[r'std::io::Error::kind'] = lambda se, env, pc, e: one(env, (se.deref(env, e) if isinstance(e, Ref) else e).get('kind', Opaque('kind')) if isinstance((se.deref(env, e) if isinstance(e, Ref) else e), dict) else Opaque('kind'))
+    P[r'<.* as ToString>::to_string'] = lambda se, env, pc, e: one(env, {'str': '<to_string>'})
     P[r'std::mem::drop'] = unit
     P[r'core::mem::drop'] = unit
     return S
